@@ -263,7 +263,10 @@ func doCall(op *Op, e *expr.Expression, canon func(func() string) string) (strin
 		} else {
 			s, err = lucene.ToPostgres(op.Query)
 		}
-		return strconv.Quote(s) + "|" + errText(err), nil
+		// strings are kept and re-read by O6 too: a string built over a reused buffer
+		// (unsafe.String) or an error whose text is rendered lazily can change later
+		f := func() string { return strconv.Quote(s) + "|" + errText(err) }
+		return f(), f
 	case KToParam:
 		var s string
 		var ps []any
@@ -281,7 +284,8 @@ func doCall(op *Op, e *expr.Expression, canon func(func() string) string) (strin
 			d = driver.NewPostgresDriver()
 		}
 		s, err := d.Render(e)
-		return strconv.Quote(s) + "|" + errText(err), nil
+		f := func() string { return strconv.Quote(s) + "|" + errText(err) }
+		return f(), f
 	case KRenderParam:
 		d := sharedDrv
 		if op.Fresh || !sharedDrvOK {
@@ -292,17 +296,24 @@ func doCall(op *Op, e *expr.Expression, canon func(func() string) string) (strin
 		return canon(f), f
 	case KCRender:
 		s, err := custom.Render(e)
-		return strconv.Quote(s) + "|" + errText(err), nil
+		f := func() string { return strconv.Quote(s) + "|" + errText(err) }
+		return f(), f
 	case KCRenderParam:
 		s, ps, err := custom.RenderParam(e)
 		f := func() string { return strconv.Quote(s) + "|" + canonParams(ps) + "|" + errText(err) }
 		return canon(f), f
 	case KString:
-		return strconv.Quote(e.String()), nil
+		str := e.String()
+		f := func() string { return strconv.Quote(str) }
+		return f(), f
 	case KGoString:
-		return strconv.Quote(fmt.Sprintf("%#v", e)), nil
+		str := fmt.Sprintf("%#v", e)
+		f := func() string { return strconv.Quote(str) }
+		return f(), f
 	case KSprint:
-		return strconv.Quote(fmt.Sprintf("%s|%v", e, e)), nil
+		str := fmt.Sprintf("%s|%v", e, e)
+		f := func() string { return strconv.Quote(str) }
+		return f(), f
 	case KMarshal:
 		b, err := json.Marshal(e)
 		f := func() string { return strconv.Quote(string(b)) + "|" + errText(err) }
@@ -316,7 +327,9 @@ func doCall(op *Op, e *expr.Expression, canon func(func() string) string) (strin
 		if e == nil {
 			in = nil
 		}
-		return errText(expr.Validate(in)), nil
+		verr := expr.Validate(in)
+		f := func() string { return errText(verr) }
+		return f(), f
 	case KUnmarshal:
 		x := new(expr.Expression)
 		err := json.Unmarshal([]byte(op.Query), x)
